@@ -533,3 +533,15 @@ PROPS['C02']['obligations'].append(
       'client side: polls the operation until done (0..3 polls), returns exactly its trials, FAILED_PRECONDITION -> [], '
       'other RpcError raised, operation error -> RuntimeError', 'scripted service stub', no_validate=True))
 PROPS['C02']['outside'] = 'more than 3 own / 3 requested trials; SQL datastore (C07)'
+
+
+PROPS['C01']['obligations'] += [
+    O('C01.sym_complete', 'harness.c01_symbolic', 'complete', 400, 900,
+      'CompleteTrial with SYMBOLIC study state (any int32), trial state and metric values through the real servicer on '
+      'symproto: outcome class, response, stored state = reference model; failed call changes nothing',
+      'study state 0..2^31-1, trial absent or any of 5 states, 0..1 measurements, all finite reals', env=_SYMFF),
+    O('C01.sym_measure_stop_delete', 'harness.c01_symbolic', 'measure_stop_delete', 300, 900,
+      'AddTrialMeasurement / StopTrial / DeleteTrial with symbolic study state, trial state and metric value', env=_SYMFF),
+]
+PROPS['C01']['assumptions'] = PROPS['C01'].get('assumptions', []) + [
+    'sym_* obligations: protobuf runtime = env/symproto (validated by the setup self-test and per path on upb)']
